@@ -3,16 +3,19 @@
 /tmp/vs-<ID>.log) copy it to /verif/seeded/<ID>-<N>/ with meta.json, and record which quick checks catch it."""
 import sys, os, shutil, json, subprocess, re, glob
 ID, N = sys.argv[1], sys.argv[2]
-src = f'/tmp/seed/{ID}/out/change{N}'
+ROOT = os.environ.get('SEEDROOT', '/tmp/seed')
+SUFFIX = os.environ.get('SUFFIX', '')   # e.g. 'r2' -> seeded/C12-r2-1
+src = f'{ROOT}/{ID}/out/change{N}'
 line = None
-for f in glob.glob('/tmp/vs-*.log'):
+for f in glob.glob(os.environ.get('VSLOGS', '/tmp/vs-*.log')):
     for l in open(f):
         if l.startswith(f'{ID}/{N} '): line = l.strip()
 if not line: sys.exit(f'no verification line for {ID}/{N}')
 m = re.search(r'unchanged\+demo: passed=(\d+) failed=(\d+) \| change\+demo: passed=(\d+) failed=(\d+) failing=\[(.*?)\]', line)
 ap, af, bp, bf, failing = int(m.group(1)), int(m.group(2)), int(m.group(3)), int(m.group(4)), m.group(5)
 ok = af == 0 and bf >= 1 and bp >= 2300
-dst = f'/verif/seeded/{ID}-{N}'
+TAG = f'{ID}-{SUFFIX}-{N}' if SUFFIX else f'{ID}-{N}'
+dst = f'/verif/seeded/{TAG}'
 os.makedirs(dst, exist_ok=True)
 for f in ['patch.diff', 'demo.diff', 'README.md']:
     shutil.copy(f'{src}/{f}', f'{dst}/{f}')
@@ -20,11 +23,11 @@ out = subprocess.run(['/verif/tools/try_seeded.sh', f'{dst}/patch.diff', ID], ca
 rc = re.search(r'exit=(\d)', out)
 readme = open(f'{src}/README.md').read()
 meta = {
-  "id": f"{ID}-{N}", "property": ID, "origin": "independent sub-agent given only the property text and a scratch worktree",
+  "id": TAG, "property": ID, "origin": "independent sub-agent given only the property text and a scratch worktree",
   "confirmed": {"suite_unchanged_plus_demo": {"passed": ap, "failed": af}, "suite_with_change_plus_demo": {"passed": bp, "failed": bf, "failing_tests": [x for x in failing.split(',') if x and not x.startswith('test result')]}, "ok": ok,
                 "how": "tools/verify_seeded.sh: scratch worktree of /repo HEAD under /tmp, cargo test --workspace --no-fail-fast --offline, once with demo.diff only and once with demo.diff + patch.diff"},
   "needs_to_manifest": "see README.md (written by the author of the change)",
-  "check_result": {"command": f"git -C /repo apply seeded/{ID}-{N}/patch.diff && ./check {ID} quick; git -C /repo checkout -- .", "output": out, "caught": bool(rc and rc.group(1) == '1')},
+  "check_result": {"command": f"git -C /repo apply seeded/{TAG}/patch.diff && ./check {ID} quick; git -C /repo checkout -- .", "output": out, "caught": bool(rc and rc.group(1) == '1')},
 }
 json.dump(meta, open(f'{dst}/meta.json', 'w'), indent=1)
 print(ID, N, 'ok' if ok else 'NOT-CONFIRMED', out[:200])
